@@ -1489,6 +1489,23 @@ class UnitBuilder:
                 raise Undecided(f"lost anchor: match arm #{k} with a block body in {fnq}")
             j = sites[k - 1] + 2
             return body[j:match_close(body, j) + 1]
+        m = re.match(r"^iflet_block (\d+)$", anchor)
+        if m:
+            # the block of the K-th `if let PAT = EXPR { .. }` of the function, braces included
+            k = int(m.group(1))
+            sites = [i for i, t in enumerate(body) if t.kind == "ident" and t.text == "if" and i + 1 < len(body)
+                     and body[i + 1].kind == "ident" and body[i + 1].text == "let"]
+            if k > len(sites):
+                raise Undecided(f"lost anchor: `if let` #{k} in {fnq}")
+            j = sites[k - 1] + 2
+            d = 0
+            while not (is_p(body[j], "{") and d == 0):
+                if body[j].kind == "punct" and body[j].text in ("(", "["):
+                    d += 1
+                elif body[j].kind == "punct" and body[j].text in (")", "]"):
+                    d -= 1
+                j += 1
+            return body[j:match_close(body, j) + 1]
         m = re.match(r"^arm_tail (\d+) after_let (\w+)(?:#(\d+))?$", anchor)
         if m:
             # the statements of the K-th block-bodied match arm that follow its `let NAME` statement (braces excluded)
